@@ -9,21 +9,22 @@ From Ferrous Require Import Base.Bytes Model.Resp Model.Types Model.Strings Mode
 From Coq Require Import Sorting.Sorted.
 Open Scope Z_scope.
 
-(** The group invariant [GInv]: the by-ID map is strictly sorted; each consumer's ID
-    vector is duplicate-free and holds exactly the IDs the map assigns to that consumer;
-    no empty vector is stored; every owner is a registered consumer whose counter equals
-    the length of its vector; total = size of the map; consumer counter = number of
-    consumers (names distinct); cached min/max are the map's bounds; no pending ID is
-    above the cursor.  It holds for a new group and is preserved by every operation the
-    property lists: ">"-reads, XACK, XCLAIM, DELCONSUMER, CREATECONSUMER (DESTROY drops the
-    record), with stream entries added, deleted or trimmed in between. *)
+(** The group invariant [GInv] (the four representations agree): the by-ID map is strictly
+    sorted; each consumer's ID vector is duplicate-free and holds exactly the IDs the map
+    assigns to that consumer (so every pending entry has exactly one owner); no empty vector
+    is stored; every owner is a registered consumer whose counter equals the length of its
+    vector; total = size of the map; consumer counter = number of consumers (names distinct);
+    cached min/max are the map's bounds.  It says nothing about the cursor.  It holds for a
+    new group and is preserved by EVERY operation: reads with ">" or with an explicit ID
+    (after the repairs da451f0 and 92eb72a also when the cursor was moved back), XACK,
+    XCLAIM, DELCONSUMER, CREATECONSUMER, SETID to any ID. *)
 Theorem c16_agree_new : forall start, GInv (mk_group start).
 Proof. exact GInv_mk. Qed.
 
 Theorem c16_agree_read :
-  forall now s g c count noack, SInv s -> GInv g ->
-  GInv (snd (st_read_group now s g c sid_max count noack)).
-Proof. intros now s g c count noack Hs Hg. apply (read_new_inv now s g c count noack Hs Hg). Qed.
+  forall now s g c after count noack, SInv s -> GInv g ->
+  GInv (snd (st_read_group now s g c after count noack)).
+Proof. exact read_group_ginv. Qed.
 
 Theorem c16_agree_ack : forall g ids, GInv g -> GInv (snd (g_acknowledge g ids)).
 Proof. intros g ids Hg. apply (acknowledge_inv g ids Hg). Qed.
@@ -38,10 +39,12 @@ Proof. intros g c Hg. apply (delete_consumer_inv g c Hg). Qed.
 Theorem c16_agree_createconsumer : forall g c, GInv g -> GInv (snd (g_create_consumer g c)).
 Proof. exact create_consumer_ginv. Qed.
 
+Theorem c16_agree_setid : forall g i, GInv g -> GInv (set_last g i).
+Proof. exact set_last_inv. Qed.
+
 (** Administration touches exactly one group record: CREATE appends a new group that
     satisfies the invariant, DESTROY removes that group only, every other command replaces
-    only the record of the group it names; so all groups of a stream satisfy the
-    invariant along every history. *)
+    only the record of the group it names. *)
 Theorem c16_admin_create :
   forall gs gn start, groups_ok gs -> alookup gn gs = None -> groups_ok (gs ++ [(gn, mk_group start)]).
 Proof. exact groups_ok_create. Qed.
@@ -54,20 +57,30 @@ Theorem c16_admin_update :
   forall gn', gn' <> gn -> alookup gn' (aput gn g' gs) = alookup gn' gs.
 Proof. exact groups_ok_update. Qed.
 
-(** XGROUP SETID keeps the agreement exactly when no pending ID lies above the new
-    cursor (otherwise see [c16_setid_redelivery_refuted]) *)
-Theorem c16_agree_setid :
-  forall g i, GInv g -> Forall (fun p => sid_le (p_id p) i) (g_by_id g) -> GInv (set_last g i).
-Proof. exact set_last_inv. Qed.
+(** Along ALL histories, at the level of the commands: [DbGInv d] = every stream stored in
+    the database satisfies the stream invariant and every group of every stream satisfies
+    [GInv].  It holds for the empty database and is preserved by every command of the family
+    (XADD XRANGE XREVRANGE XLEN XREAD XTRIM XDEL XGROUP * XREADGROUP XACK XCLAIM XPENDING
+    XINFO), for every argument list, at every time, failing or not - no exceptions. *)
+Theorem c16_invariant_initially : DbGInv empty_db.
+Proof. exact DbGInv_empty. Qed.
+Theorem c16_invariant_every_command :
+  forall now d name parts oracle reply d', DbGInv d ->
+  exec_streams now d name parts oracle = Some (reply, d') -> DbGInv d'.
+Proof. exact exec_streams_dbg. Qed.
+Theorem c16_invariant_every_history :
+  forall now cs d, DbGInv d -> DbGInv (snd (run_cmds now d cs)).
+Proof. intros now cs d. apply run_cmds_dbg. Qed.
 
 (** Exactly-once delivery, in ID order, through ">": over every history of stream
-    operations, ">"-reads by any consumers with any COUNT, XACK, XCLAIM, DELCONSUMER and
-    CREATECONSUMER, starting from any state satisfying the invariants with the cursor not
-    ahead of the stream: both invariants hold at the end; the log of delivered IDs is
-    strictly increasing and above the initial cursor (no entry is delivered twice, to
-    whatever consumer); the cursor only moves forward and bounds the log; and every
-    entry present at the end with an ID above the initial cursor and at or below the
-    final cursor is in the log.  ([step_facts] spells these clauses out.) *)
+    operations, ">"-reads by any consumers with any COUNT, explicit-ID re-reads, XACK,
+    XCLAIM, DELCONSUMER and CREATECONSUMER (everything but SETID, which is the command for
+    delivering again), starting from any state satisfying the invariants with the cursor not
+    ahead of the stream: both invariants hold at the end; the log of IDs delivered through
+    ">" is strictly increasing and above the initial cursor (no entry is delivered twice, to
+    whatever consumer); the cursor only moves forward and bounds the log; and every entry
+    present at the end with an ID above the initial cursor and at or below the final cursor
+    is in the log.  ([step_facts] spells these clauses out.) *)
 Theorem c16_exactly_once :
   forall ops s g, SInv s -> GInv g -> sid_le (g_last g) (s_last s) -> Forall gop_ok ops ->
   match grun s g ops with (s2, g2, log) => step_facts s g s2 g2 log end.
@@ -84,9 +97,15 @@ Proof. intros ops s start Hs Hle Hok. apply group_history; [assumption|apply GIn
 Theorem c16_dollar_start_not_ahead :
   forall s i, SInv s -> last_entry_id s = Some i -> sid_le i (s_last s).
 Proof. exact last_entry_le_last. Qed.
+(** ... and along such histories no pending ID is ever above the cursor *)
+Theorem c16_pending_below_cursor :
+  forall ops s g, SInv s -> GInv g -> BelowCursor g -> sid_le (g_last g) (s_last s) -> Forall gop_ok ops ->
+  BelowCursor (snd (fst (grun s g ops))).
+Proof. exact group_history_below. Qed.
 
 (** one ">"-read returns the first COUNT present entries above the cursor, in ID order,
-    moves the cursor to the last of them and (unless NOACK) makes the reader their owner *)
+    moves the cursor to the last of them and (unless NOACK) makes the reader their owner -
+    wherever the cursor is, whoever owned them before *)
 Theorem c16_read_new :
   forall now s g c count noack, SInv s -> GInv g ->
   let r := st_read_group now s g c sid_max count noack in
@@ -98,6 +117,60 @@ Theorem c16_read_new :
   (forall id, owner (g_by_id (snd r)) id =
               if negb noack && sid_mem id (map fst (fst r)) then Some c else owner (g_by_id g) id).
 Proof. exact read_new_inv. Qed.
+
+(** formerly class setid-redelivery (fixed by 92eb72a): after XGROUP SETID to an earlier ID
+    a ">"-read by any consumer delivers still-pending entries again; each of them then has
+    exactly one owner, the reader - it is in the reader's index and in nobody else's - and
+    (by [c16_agree_read] and [c16_xpending_exact]) XPENDING's total, bounds and per-consumer
+    counts are those of the actual pending set *)
+Theorem c16_redelivery_single_owner :
+  forall now s g c count, SInv s -> GInv g ->
+  let r := st_read_group now s g c sid_max count false in
+  forall e, In e (fst r) ->
+    owner (g_by_id (snd r)) (fst e) = Some c /\
+    forall c', In (fst e) (bcg c' (g_by_consumer (snd r))) <-> c' = c.
+Proof. exact read_new_single_owner. Qed.
+
+(** formerly class explicit-id-reread (fixed by da451f0): a read with an explicit ID returns
+    exactly the reader's own pending entries above that ID - the first COUNT of them in ID
+    order, [sel]; the ones deleted from the stream are left out - and changes nothing but
+    delivery counters: cursor, per-consumer index, total and bounds are untouched, the
+    pending IDs and their owners are the same, exactly the selected entries get delivery
+    count + 1 and the delivery time [now]; the reader is registered as a consumer *)
+Theorem c16_read_own :
+  forall now s g c after count noack, sid_eqb after sid_max = false -> GInv g ->
+  let r := st_read_group now s g c after count noack in
+  let sel := map p_id (take_count count (own_pending_after g c after)) in
+  fst r = filter_map (fun id => find_entry id (s_entries s)) sel /\
+  GInv (snd r) /\
+  g_last (snd r) = g_last g /\ g_by_consumer (snd r) = g_by_consumer g /\ g_total (snd r) = g_total g /\
+  g_min (snd r) = g_min g /\ g_max (snd r) = g_max g /\
+  g_consumers (snd r) = g_consumers (snd (g_create_consumer g c)) /\
+  g_ncons (snd r) = g_ncons (snd (g_create_consumer g c)) /\
+  map p_id (g_by_id (snd r)) = map p_id (g_by_id g) /\
+  (forall id, owner (g_by_id (snd r)) id = owner (g_by_id g) id) /\
+  (forall id, pel_find id (g_by_id (snd r))
+              = option_map (fun q => if sid_mem id sel then bump now q else q) (pel_find id (g_by_id g))).
+Proof. exact read_own_spec. Qed.
+Theorem c16_read_own_entries :
+  forall now s g c after count noack, sid_eqb after sid_max = false -> SInv s -> GInv g ->
+  let r := st_read_group now s g c after count noack in
+  let sel := map p_id (take_count count (own_pending_after g c after)) in
+  sorted (fst r) /\ forall e, In e (fst r) <-> In e (s_entries s) /\ In (fst e) sel.
+Proof. exact read_own_entries. Qed.
+
+(** formerly class xreadgroup-partial-failure (fixed by 3384736): an XREADGROUP that answers
+    an error - whichever key, ID or group of a multi-key command is the offending one -
+    changes no stream and no group: the database afterwards is the database before minus the
+    expired keys storage.get removed on the way; with no expired key it is the same database *)
+Theorem c16_xreadgroup_error_no_effect :
+  forall now d parts, is_error (fst (h_xreadgroup now d parts)) = true ->
+  exists ks, snd (h_xreadgroup now d parts) = expire_keys now ks d.
+Proof. exact xreadgroup_error_atomic. Qed.
+Theorem c16_xreadgroup_error_same_db :
+  forall now d parts, (forall k e, get_entry d k = Some e -> expired now e = false) ->
+  is_error (fst (h_xreadgroup now d parts)) = true -> snd (h_xreadgroup now d parts) = d.
+Proof. exact xreadgroup_error_no_effect. Qed.
 
 (** XACK answers the number of listed IDs that were pending, each counted once; exactly
     those leave the pending set; acknowledging them again answers 0 *)
@@ -125,8 +198,9 @@ Theorem c16_claim_respects_idle :
   g_by_id (snd (g_claim now g c min_idle [id] false)) = g_by_id g.
 Proof. exact claim_respects_idle. Qed.
 
-(** XPENDING / XINFO GROUPS: under the invariant the reported total, ID bounds, consumer
-    counter and per-consumer counts are those of the actual pending set *)
+(** XPENDING / XINFO GROUPS: under the invariant - hence after every history - the reported
+    total, ID bounds, consumer counter and per-consumer counts are those of the actual
+    pending set *)
 Theorem c16_xpending_exact :
   forall g, GInv g ->
   g_total g = len (g_by_id g) /\ g_min g = pel_min (g_by_id g) /\ g_max g = pel_max (g_by_id g) /\
@@ -172,42 +246,81 @@ Example c16_noack_witness :
      FArray [FInt 0; FNullBulk; FNullBulk; FArray []]].
 Proof. vm_compute. reflexivity. Qed.
 
-(** F-16c, class explicit-id-reread: a read with an explicit ID returns stream entries
-    (not the reader's pending entries) and adds them to the pending list again: the four
-    representations disagree (XPENDING: 1 entry, c1:1 and c2:1; XINFO GROUPS: pending 2) *)
-Example c16_explicit_id_refuted :
-  fst (run_cmds 0 empty_db [cmd ["XADD"; "s"; "5-0"; "a"; "1"]; cmd ["XGROUP"; "CREATE"; "s"; "g"; "0"];
+(** formerly F-16c (class explicit-id-reread, fixed by da451f0): a consumer that never
+    received anything reads nothing with ID 0 (it is registered as a consumer); the owner
+    reads its own entries again, COUNT and the ID are honoured, only delivery counts grow *)
+Example c16_explicit_id_witness :
+  fst (run_cmds 0 empty_db [cmd ["XADD"; "s"; "5-0"; "a"; "1"]; cmd ["XADD"; "s"; "6-0"; "a"; "2"];
+                            cmd ["XGROUP"; "CREATE"; "s"; "g"; "0"];
                             cmd ["XREADGROUP"; "GROUP"; "g"; "c1"; "STREAMS"; "s"; ">"];
                             cmd ["XREADGROUP"; "GROUP"; "g"; "c2"; "STREAMS"; "s"; "0"];
-                            cmd ["XPENDING"; "s"; "g"]; cmd ["XINFO"; "GROUPS"; "s"]])
-  = [bulk "5-0"; r_ok; FArray [FArray [bulk "s"; FArray [entry1 "5-0" "a" "1"]]];
+                            cmd ["XREADGROUP"; "GROUP"; "g"; "c1"; "COUNT"; "1"; "STREAMS"; "s"; "0"];
+                            cmd ["XREADGROUP"; "GROUP"; "g"; "c1"; "STREAMS"; "s"; "5-0"];
+                            cmd ["XPENDING"; "s"; "g"]; cmd ["XPENDING"; "s"; "g"; "-"; "+"; "10"];
+                            cmd ["XINFO"; "GROUPS"; "s"]])
+  = [bulk "5-0"; bulk "6-0"; r_ok;
+     FArray [FArray [bulk "s"; FArray [entry1 "5-0" "a" "1"; entry1 "6-0" "a" "2"]]];
+     FArray [];
      FArray [FArray [bulk "s"; FArray [entry1 "5-0" "a" "1"]]];
-     FArray [FInt 1; bulk "5-0"; bulk "5-0"; FArray [FArray [bulk "c1"; FInt 1]; FArray [bulk "c2"; FInt 1]]];
+     FArray [FArray [bulk "s"; FArray [entry1 "6-0" "a" "2"]]];
+     FArray [FInt 2; bulk "5-0"; bulk "6-0"; FArray [FArray [bulk "c1"; FInt 2]]];
+     FArray [FArray [bulk "5-0"; bulk "c1"; FInt 0; FInt 2]; FArray [bulk "6-0"; bulk "c1"; FInt 0; FInt 2]];
      FArray [FArray [bulk "name"; bulk "g"; bulk "consumers"; FInt 2; bulk "pending"; FInt 2;
-                     bulk "last-delivered-id"; bulk "5-0"]]].
+                     bulk "last-delivered-id"; bulk "6-0"]]].
 Proof. vm_compute. reflexivity. Qed.
-Lemma c16_explicit_id_breaks_agreement :
-  exists s g, SInv s /\ GInv g /\ ~ GInv (snd (st_read_group 0 s g (bs "c2") (0, 0) None false)).
-Proof.
-  set (s := {| s_entries := [((5, 0), [])]; s_last := (5, 0); s_ams := 5; s_aseq := 0; s_len := 1; s_groups := [] |}).
-  assert (Hs : SInv s).
-  { split; cbn; [constructor; constructor|constructor; [right; reflexivity|constructor]|reflexivity|reflexivity]. }
-  exists s, (snd (st_read_group 0 s new_group (bs "c1") sid_max None false)).
-  split; [exact Hs|]. split; [apply (read_new_inv 0 s new_group (bs "c1") None false Hs GInv_new)|].
-  intros H. pose proof (gi_total _ _ _ _ H) as Ht. vm_compute in Ht. discriminate.
-Qed.
 
-(** new finding, class setid-redelivery: after XGROUP SETID to an earlier ID, ">" delivers
-    pending entries again and re-adds them (Redis moves them to the new reader) *)
-Example c16_setid_redelivery_refuted :
+(** formerly class setid-redelivery (fixed by 92eb72a): after XGROUP SETID to an earlier ID
+    ">" delivers the pending entry again and moves it to the new reader: c1 owns nothing
+    any more, one XACK empties the pending set *)
+Example c16_setid_redelivery_witness :
   fst (run_cmds 0 empty_db [cmd ["XADD"; "s"; "5-0"; "a"; "1"]; cmd ["XGROUP"; "CREATE"; "s"; "g"; "0"];
                             cmd ["XREADGROUP"; "GROUP"; "g"; "c1"; "STREAMS"; "s"; ">"];
                             cmd ["XGROUP"; "SETID"; "s"; "g"; "0-0"];
                             cmd ["XREADGROUP"; "GROUP"; "g"; "c2"; "STREAMS"; "s"; ">"];
-                            cmd ["XPENDING"; "s"; "g"]])
+                            cmd ["XPENDING"; "s"; "g"]; cmd ["XPENDING"; "s"; "g"; "-"; "+"; "10"; "c1"];
+                            cmd ["XACK"; "s"; "g"; "5-0"]; cmd ["XINFO"; "GROUPS"; "s"]])
   = [bulk "5-0"; r_ok; FArray [FArray [bulk "s"; FArray [entry1 "5-0" "a" "1"]]]; r_ok;
      FArray [FArray [bulk "s"; FArray [entry1 "5-0" "a" "1"]]];
-     FArray [FInt 1; bulk "5-0"; bulk "5-0"; FArray [FArray [bulk "c1"; FInt 1]; FArray [bulk "c2"; FInt 1]]]].
+     FArray [FInt 1; bulk "5-0"; bulk "5-0"; FArray [FArray [bulk "c2"; FInt 1]]];
+     FArray []; FInt 1;
+     FArray [FArray [bulk "name"; bulk "g"; bulk "consumers"; FInt 2; bulk "pending"; FInt 0;
+                     bulk "last-delivered-id"; bulk "5-0"]]].
+Proof. vm_compute. reflexivity. Qed.
+
+(** ---- open findings in the neighbourhood (the model follows the code) ---- *)
+(** class xreadgroup-missing-key: a key that does not exist is skipped silently (Redis: NOGROUP) *)
+Example c16_missing_key_refuted :
+  fst (run_cmds 0 empty_db [cmd ["XREADGROUP"; "GROUP"; "g"; "c1"; "STREAMS"; "nokey"; ">"];
+                            cmd ["XREADGROUP"; "GROUP"; "g"; "c1"; "STREAMS"; "nokey"; "0"]])
+  = [FArray []; FArray []].
+Proof. vm_compute. reflexivity. Qed.
+(** class xpending-consumer-range: with a consumer name the extended XPENDING ignores the range *)
+Example c16_xpending_consumer_range_refuted :
+  fst (run_cmds 0 empty_db [cmd ["XADD"; "s"; "1-0"; "a"; "1"]; cmd ["XADD"; "s"; "2-0"; "a"; "2"];
+                            cmd ["XGROUP"; "CREATE"; "s"; "g"; "0"];
+                            cmd ["XREADGROUP"; "GROUP"; "g"; "c1"; "STREAMS"; "s"; ">"];
+                            cmd ["XPENDING"; "s"; "g"; "2-0"; "2-0"; "10"; "c1"];
+                            cmd ["XPENDING"; "s"; "g"; "2-0"; "2-0"; "10"]])
+  = [bulk "1-0"; bulk "2-0"; r_ok;
+     FArray [FArray [bulk "s"; FArray [entry1 "1-0" "a" "1"; entry1 "2-0" "a" "2"]]];
+     FArray [FArray [bulk "1-0"; bulk "c1"; FInt 0; FInt 1]; FArray [bulk "2-0"; bulk "c1"; FInt 0; FInt 1]];
+     FArray [FArray [bulk "2-0"; bulk "c1"; FInt 0; FInt 1]]].
+Proof. vm_compute. reflexivity. Qed.
+(** class xreadgroup-max-id-marker: the explicit ID u64::MAX-u64::MAX is the handler's marker
+    for ">" ([c16_read_own] carries the side condition [sid_eqb after sid_max = false]) *)
+Example c16_max_id_marker_refuted :
+  fst (run_cmds 0 empty_db [cmd ["XADD"; "s"; "1-0"; "a"; "1"]; cmd ["XGROUP"; "CREATE"; "s"; "g"; "0"];
+                            cmd ["XREADGROUP"; "GROUP"; "g"; "c1"; "STREAMS"; "s"; "18446744073709551615-18446744073709551615"];
+                            cmd ["XPENDING"; "s"; "g"]])
+  = [bulk "1-0"; r_ok; FArray [FArray [bulk "s"; FArray [entry1 "1-0" "a" "1"]]];
+     FArray [FInt 1; bulk "1-0"; bulk "1-0"; FArray [FArray [bulk "c1"; FInt 1]]]].
+Proof. vm_compute. reflexivity. Qed.
+(** class xreadgroup-count-zero: COUNT 0 returns nothing (Redis: no limit) *)
+Example c16_count_zero_refuted :
+  fst (run_cmds 0 empty_db [cmd ["XADD"; "s"; "1-0"; "a"; "1"]; cmd ["XGROUP"; "CREATE"; "s"; "g"; "0"];
+                            cmd ["XREADGROUP"; "GROUP"; "g"; "c1"; "COUNT"; "0"; "STREAMS"; "s"; ">"];
+                            cmd ["XREADGROUP"; "GROUP"; "g"; "c1"; "STREAMS"; "s"; ">"]])
+  = [bulk "1-0"; r_ok; FArray []; FArray [FArray [bulk "s"; FArray [entry1 "1-0" "a" "1"]]]].
 Proof. vm_compute. reflexivity. Qed.
 
 (** formerly class xpending-inverted-range (fixed by 8b811fd): an inverted range selects
@@ -222,17 +335,17 @@ Example c16_xpending_inverted_range_witness :
      FArray [FInt 1; bulk "5-0"; bulk "5-0"; FArray [FArray [bulk "c1"; FInt 1]]]].
 Proof. vm_compute. reflexivity. Qed.
 
-(** new finding, class xreadgroup-partial-failure: a multi-key XREADGROUP that fails on a
-    later key (here: no such group on b) answers only the error, but the entries of the
-    earlier keys are already pending for the reader and will never be delivered by ">" *)
-Example c16_partial_failure_refuted :
+(** formerly class xreadgroup-partial-failure (fixed by 3384736): a multi-key XREADGROUP that
+    fails on a later key (here: no such group on b) consumes nothing of the earlier keys *)
+Example c16_partial_failure_witness :
   fst (run_cmds 0 empty_db [cmd ["XADD"; "a"; "1-0"; "f"; "v"]; cmd ["XADD"; "b"; "1-0"; "f"; "v"];
                             cmd ["XGROUP"; "CREATE"; "a"; "g"; "0"];
                             cmd ["XREADGROUP"; "GROUP"; "g"; "c1"; "STREAMS"; "a"; "b"; ">"; ">"];
                             cmd ["XPENDING"; "a"; "g"];
                             cmd ["XREADGROUP"; "GROUP"; "g"; "c1"; "STREAMS"; "a"; ">"]])
   = [bulk "1-0"; bulk "1-0"; r_ok; r_nogroup;
-     FArray [FInt 1; bulk "1-0"; bulk "1-0"; FArray [FArray [bulk "c1"; FInt 1]]]; FArray []].
+     FArray [FInt 0; FNullBulk; FNullBulk; FArray []];
+     FArray [FArray [bulk "a"; FArray [entry1 "1-0" "f" "v"]]]].
 Proof. vm_compute. reflexivity. Qed.
 
 (** formerly class xgroup-create-error-effect (fixed by 7f9490b): a refused XGROUP CREATE
@@ -251,7 +364,8 @@ Proof. vm_compute. reflexivity. Qed.
 (** ---- non-vacuity: a history through the theorem's step function ---- *)
 Example c16_history_example :
   let ops := [GStream (OAddId (1, 0) []); GStream (OAddId (2, 0) []); GStream (OAddId (3, 0) []);
-              GRead 0 (bs "c1") (Some 2) false; GRead 1 (bs "c2") None false; GAck [(1, 0); (1, 0); (9, 9)];
+              GRead 0 (bs "c1") (Some 2) false; GRead 1 (bs "c2") None false; GReread 2 (bs "c1") (0, 0) (Some 1);
+              GAck [(1, 0); (1, 0); (9, 9)];
               GClaim 5 (bs "c2") 0 [(2, 0)] false; GStream (ODel [(3, 0)]); GStream (OAddAuto 7 []);
               GRead 9 (bs "c1") None false; GDelConsumer (bs "c2")] in
   match grun empty_stream new_group ops with
